@@ -242,6 +242,9 @@ func (f *fnState) specVal(e spec.Expr, c *specCtx) SV {
 		i := f.specVal(x.I, c)
 		switch u := typeUnder(b.Typ).(type) {
 		case *types.Slice:
+			if f.quant > 0 || !isByte(u.Elem()) {
+				return f.heapAccess(c.env, fmt.Sprintf("(elt %s %s)", b.T, i.T), u.Elem(), nil, nil, nil)
+			}
 			return f.heapAccess(c.env, locOff(fmt.Sprintf("(s-loc %s)", b.T), i.T), u.Elem(), nil, nil, nil)
 		case *types.Array:
 			sv := f.mk(u.Elem(), fmt.Sprintf("(select %s %s)", b.T, i.T))
@@ -299,7 +302,9 @@ func (f *fnState) specVal(e spec.Expr, c *specCtx) SV {
 			}
 			decls = append(decls, fmt.Sprintf("(%s %s)", name, s))
 		}
+		f.quant++
 		body := f.specBool(x.Body, &n)
+		f.quant--
 		q := "exists"
 		if x.Forall {
 			q = "forall"
